@@ -17,6 +17,7 @@ or not contactable, the hand-over of the result).
   for (`find_node_predicate`).
 -/
 import Discv5Model.Proofs.LookupLemmas
+import Discv5Model.Props.C12
 
 namespace Discv5.Props.C09Service
 
@@ -198,6 +199,49 @@ theorem result_size (c : LCfg) (now : Nat) (k : LSvc) (i : LInput) (found : List
         cases numResults with
         | none => exact this
         | some n => exact this
+
+/-! ## Lookups are runs of the service model -/
+
+/-- **A composed step is a run of the service model**: the step itself, followed by inputs the
+service loop generates on its own (a request for a peer the lookup selected, the end of the lookup,
+`find_enr` look-ups for the result).  Every invariant proved of all runs of `Svc` therefore holds with
+lookups running. -/
+theorem service_step_is_a_run (c : LCfg) (now : Nat) (k : LSvc) (o : Oracle) (inp : Input) :
+    ∃ l : List Input, (∀ i ∈ l, IsInternal i) ∧
+      (k.step c now (.svc o inp)).1.svc = (k.svc.run ((o, inp) :: l.map fun i => (({} : Oracle), i))).1 := by
+  obtain ⟨l, hl, he⟩ := step_svc_internal c now k o inp
+  exact ⟨l, hl, he⟩
+
+theorem lookup_start_is_a_run (c : LCfg) (now : Nat) (k : LSvc) (target : Nat) (n : Option Nat) :
+    ∃ l : List Input, (∀ i ∈ l, IsInternal i) ∧
+      (k.step c now (.lookup target n)).1.svc = (k.svc.run (l.map fun i => (({} : Oracle), i))).1 :=
+  step_lookup_internal c now k target n
+
+/-- **The routing-table policy of C12 holds with lookups running**: from a well-formed state that
+satisfies the policy (every stored and pending value contactable, passing the table filter, not the
+local node), a composed step - whatever the lookup does in it - leads to such a state again. -/
+theorem lookups_keep_table_policy (c : LCfg) (now : Nat) (k : LSvc) (i : LInput)
+    (hw : C12.Wf k.svc) (hp : C12.TablePolicy k.svc)
+    (ho : ∀ o inp, i = .svc o inp → C12.OracleSane k.svc o) :
+    C12.Wf (k.step c now i).1.svc ∧ C12.TablePolicy (k.step c now i).1.svc := by
+  have hsane : ∀ (s : Svc) (l : List Input) (p : Oracle × Input),
+      p ∈ (l.map fun i => (({} : Oracle), i)) → C12.OracleSane s p.1 := by
+    intro s l p hp'
+    obtain ⟨i', _, rfl⟩ := List.mem_map.mp hp'
+    intro r a h; cases h
+  cases i with
+  | svc o inp =>
+    obtain ⟨l, _, he⟩ := service_step_is_a_run c now k o inp
+    rw [he]
+    apply C12.table_policy_run _ k.svc hw _ hp
+    intro p hp'
+    cases hp' with
+    | head => exact ho o inp rfl
+    | tail _ h => exact hsane k.svc l p h
+  | lookup target n =>
+    obtain ⟨l, _, he⟩ := lookup_start_is_a_run c now k target n
+    rw [he]
+    exact C12.table_policy_run _ k.svc hw (fun p h => hsane k.svc l p h) hp
 
 /-! ## Non-vacuity -/
 
